@@ -5,6 +5,8 @@
   member `m`"; `applies W b q` = "user block `b` applies to `q`".
 -/
 import DisjointImpls.Lemmas.Refine
+import DisjointImpls.Lemmas.ExpandLemmas
+import DisjointImpls.Props.C11
 namespace DI
 
 /-- whatever block the generated program selects for a query is a block whose header matches the query and
@@ -57,5 +59,82 @@ example :
     let m : Member := ⟨blk, [("_ŠČ0", .identity)], [some (.node "GroupA" [] [])]⟩
     let F : Family := ⟨hdr, [key], ["_ŠČ0"], [m]⟩
     memberOK F m = true := by decide
+
+/-! ## `ExpandOK`: the expansion has the shape the refinement theorem assumes
+
+`expandOKB g θs helpers main` (`ExpandOK.lean`) is the executable checker that used to live in Python
+(`harness/props/shape.py::expand_ok`): every helper impl is its member with the trait path renamed and
+`row ++ member's trait arguments` as arguments, the main impl has the family's trait path and self type, a
+predicate `bounded: trait` per key and `Self: helper<lifetimes, projections of the keys, …>`. It reads the given
+trees positionally and does not call the generators. Below it is proved of the model's own expansion
+(`helperImpls`, `mainImplOfTrait` of `Expand.lean`, which agree tree for tree with the real generators on every
+generated plan), once and for all. -/
+
+/-- `ExpandOK` holds of the model's expansion in trait mode, for a formed family that is well-formed
+    (`expandWF`, executable: at least one key, one row per member under every key, the group id is the header of
+    the first member, every key's trait path is a well-formed path and no key is bounded on `Self`) and whose
+    wildcard row entries occur only where the member's substitution fixes the key's bounded type
+    (`wildcardsFixed`, executable; its failure is the open finding F-D3, see the counterexample below).
+    `thetasOf g` computes the members' substitutions as the driver's `family` command does. -/
+theorem C01_expandOK_of_expand (tr : T) (idx : Nat) (g : T × ABG × List Blk) (hs : List T) (m : T)
+    (hh : helperImpls idx g = some hs) (hm : mainImplOfTrait tr idx g = .ok m)
+    (hwf : expandWF g = true) (hfix : wildcardsFixed g = true) :
+    expandOKB g (thetasOf g) hs m = true :=
+  expandOK_of_expand tr idx g hs m hh hm hwf hfix
+
+/-- everything but the wildcard conjunct needs no hypothesis on the substitutions: the main impl always passes -/
+theorem C01_expandOK_main (tr : T) (idx : Nat) (g : T × ABG × List Blk) (m : T)
+    (hm : mainImplOfTrait tr idx g = .ok m) (hwf : expandWF g = true) :
+    XOK.checkMain false g.1 (XOK.keysOf g.2.1.idents) m = true :=
+  checkMain_of_main hm hwf
+
+namespace ExOK
+/-- `trait Kita {}` -/
+def kitaTrait : T := .node "ItemTrait" [] [Ex11.attrs, .node "Visibility::Inherited" [] [], Ex11.leaf "None", Ex11.leaf "None",
+  Ex11.leaf "None", .node "Ident" ["Kita"] [], .node "Generics" [] [Ex11.leaf "None", .node "List" [] [], Ex11.leaf "None", Ex11.leaf "None"],
+  Ex11.leaf "None", .node "List" [] [], .node "List" [] []]
+def implW (params : List T) (wc : T) (self : T) : T :=
+  .node "ItemImpl" [] [Ex11.attrs, Ex11.leaf "None", Ex11.leaf "None",
+    .node "Generics" [] [Ex11.leaf "Some", .node "List" [] params, Ex11.leaf "Some", wc],
+    .node "Some" [] [.node "Tuple" [] [Ex11.leaf "None", Ex11.path [Ex11.seg "Kita"]]], self, .node "List" [] []]
+def tU : T := Ex11.tyPath [Ex11.seg "U"]
+def tup2 (a b : T) : T := .node "Type::Tuple" [] [.node "List" [] [a, b]]
+/-- `impl<T: Dispatch<Group = GroupA>, U: Dispatch<Group = GroupA>> Kita for (T, U) {}` -/
+def d3a : T := implW [Ex11.tyParam "T" [Ex11.traitBound (Ex11.dispatch "GroupA")],
+  Ex11.tyParam "U" [Ex11.traitBound (Ex11.dispatch "GroupA")]] (Ex11.leaf "None") (tup2 Ex11.tT tU)
+/-- `impl<T: Dispatch<Group = GroupB>, U> Kita for (T, Vec<U>) where Vec<U>: Dispatch {}` -/
+def d3b : T := implW [Ex11.tyParam "T" [Ex11.traitBound (Ex11.dispatch "GroupB")], Ex11.tyParam "U" []]
+  (.node "Some" [] [.node "WhereClause" [] [.node "List" [] [.node "WherePredicate::Type" [] [.node "PredicateType" []
+    [Ex11.leaf "None", Ex11.vecOf tU, .node "List" [] [Ex11.traitBound (Ex11.path [Ex11.seg "Dispatch"])]]]]]])
+  (tup2 Ex11.tT (Ex11.vecOf tU))
+
+/-- run the front end and the generators on the first family and apply a Boolean test to the result -/
+def checkFirst (items : List T) (f : (T × ABG × List Blk) → List T → T → Bool) : Bool :=
+  match parseGroups items with
+  | .ok (g :: _) =>
+      (match helperImpls 0 g, mainImplOfTrait kitaTrait 0 g with
+       | some hs, .ok m => f g hs m
+       | _, _ => false)
+  | _ => false
+end ExOK
+
+section ExpandExamples
+set_option maxRecDepth 1000000
+
+/-- non-vacuity: the README family (two members, one key) is accepted, both generators succeed, the hypotheses
+    `expandWF` / `wildcardsFixed` hold and the checker accepts the expansion -/
+example : ExOK.checkFirst [Ex11.blockFor "GroupA", Ex11.blockFor "GroupB"]
+    (fun g hs m => g.2.2.length == 2 && hs.length == 2 && expandWF g && wildcardsFixed g &&
+      expandOKB g (thetasOf g) hs m) = true := by with_unfolding_all decide
+
+/-- the hypothesis `wildcardsFixed` is needed (finding F-D3, disjoint.rs:45-48): for the family `(T, U)` keyed on
+    `T: Dispatch`, `U: Dispatch` with the nested member `(T, Vec<U>) where Vec<U>: Dispatch`, the wildcard entry of
+    the member's row is printed with the family's key `<_ŠČ1 as Dispatch>::Group` instead of the key seen through
+    the member's substitution `<Vec<_ŠČ1> as Dispatch>::Group`: the family is well-formed, both generators succeed,
+    and the checker rejects the expansion -/
+theorem C01_expandOK_wildcard_counterexample : ExOK.checkFirst [ExOK.d3a, ExOK.d3b]
+    (fun g hs m => g.2.2.length == 2 && expandWF g && !wildcardsFixed g && !expandOKB g (thetasOf g) hs m &&
+      XOK.checkMain false g.1 (XOK.keysOf g.2.1.idents) m) = true := by with_unfolding_all decide
+end ExpandExamples
 
 end DI
